@@ -50,6 +50,13 @@ def scenarios(r, p):
                 cur["metadata"]["ownerReferences"] = refs
         return cur
 
+    def deco_foreign_only(cur):
+        """the parent's reference is gone, another actor's is there: the patch must add ours and keep theirs"""
+        cur = deco(cur)
+        if cur is not None and isinstance(cur.get("metadata"), dict) and "ownerReferences" in cur["metadata"]:
+            cur["metadata"]["ownerReferences"] = [{"apiVersion": "v1", "kind": "Other", "name": "o9", "uid": "uid-foreign-9"}]
+        return cur
+
     if not p.get("createEnabled", True):      # may not create: the object is provisioned elsewhere
         return rf45.synth_stored(p), [deco, deco_co_owned if r.random() < 0.3 else deco, None]
     c = r.random()
@@ -57,8 +64,10 @@ def scenarios(r, p):
         return None, [None, deco, deco]
     if c < 0.6:
         return None, [None, None, deco]
-    if c < 0.9:
+    if c < 0.85:
         return None, [None, deco_co_owned, deco_co_owned, None]
+    if c < 0.93:
+        return None, [None, deco_foreign_only, None, None]
     return None, [None, deco_drop_owner, None]
 
 
